@@ -72,6 +72,9 @@ def run(chk):
     plan = [
         dict(flavour="asan-ubsan", exe="record_algo", module="TraceAlgo", scen="density", runs=(700, 30000), opts={}),
         dict(flavour="rel", exe="record_algo", module="TraceAlgo", scen="density", runs=(400, 20000), opts={}),
+        # large designs: every length x 2^12 (single bins below 2^31 units of area, coarser views beyond), logged back in the small units
+        dict(flavour="rel", exe="record_algo", module="TraceAlgo", scen="density", runs=(300, 10000), opts={"big": 1}),
+        dict(flavour="asan-ubsan", exe="record_algo", module="TraceAlgo", scen="density", runs=(100, 4000), opts={"big": 1}),
         dict(flavour="asan-ubsan", scen="grid", runs=(600, 15000), opts={"globalDomain": 1, "varyScale": 4, "turned": 0}),
     ]
     run_plan(chk, "C16", plan, nontrivial)
